@@ -94,6 +94,8 @@ def gen_cases(rng, tier):
             h += ['t800']
         # the releases added for keys still down come out of a hash set "in no particular order": with two or more
         # such keys possible the trace is only checked by the oracle, not compared event by event with the model
+        # with recorded delays a replay lasts as long as the typing did: drain for at least the length of the history
+        h = h + ['t%d' % (sum(int(t[1:]) for t in h if t[0] == 't' and t[1:].isdigit()) + 300)]
         exact = single and kind != 'random'
         cases.append({'id': 'c19-%d' % i, 'cfg': cfg, 'hist': h + ['q'], 'sub': 'ksim', 'kind': kind, 'sensitive': sensitive,
                       'no_compare': not exact, 'tags': {'kind': kind, 'sensitive': sensitive, 'exact_compare': exact}})
@@ -109,7 +111,20 @@ def oracle(case, it):
     if end:
         m = re.search(r'down=\[([^\]]*)\]', end[0])
         if m and m.group(1).strip():
-            return 'keys left down at the end: [%s]' % m.group(1)
+            # a macro that was recorded while its own play key was pressed replays itself: is output still periodic at the very end
+            # of a drain that is longer than the whole history?
+            tot = int(re.search(r'tick=(\d+)', end[0]).group(1))
+            last = max([int(mm.group(1)) for mm in (re.match(r'@(\d+)', l) for l in it) if mm] or [0])
+            # (the stop key itself may be handled late — behind a pending tap-hold — so a play key pressed after it can still be recorded)
+            seen_rec = False
+            play_inside = False
+            for tok in case['hist']:
+                if tok in ('d%d' % C['g'], 'd%d' % C['q'], 'd%d' % C['k']):
+                    seen_rec = True
+                elif seen_rec and tok in ('d%d' % C['j'], 'd%d' % C['k'], 'd%d' % C['w']):
+                    play_inside = True
+            tag = ' [endless-replay]' if (last > tot - 80 and play_inside) else ''
+            return 'keys left down at the end: [%s]%s' % (m.group(1), tag)
     if case.get('kind') == 'simple' and not case.get('sensitive') and 'max-presses 128' in case['cfg'] and 'u%d' % C['l'] not in case['hist']:
         # locate the tick at which play was pressed
         t = 0
